@@ -34,9 +34,26 @@ static void describe(vf_str *o)
 static char why[300], sigk[100];
 
 /* outcome of one deserialize call: 1 returned, 2 std::exception, 3 other exception */
+/* prior use of the same overload in the same process: a successful deserialize of another document whose buffer is
+ * then released. A wrapper that kept anything across calls (a static parser, a cached pointer) would now act on it. */
+static void prior_use(int ov)
+{
+    static const uint8_t other[] = { 0x40, 0x14, 0x01, 'p', 0x14, 0x01, 'q', 0x41 };
+    Binson scratch;
+    uint8_t *c = (uint8_t *) malloc(sizeof other);
+    memcpy(c, other, sizeof other);
+    try {
+        if (ov == 0) { std::vector<uint8_t> v(c, c + sizeof other); scratch.deserialize(v); }
+        else if (ov == 1) scratch.deserialize(c, sizeof other);
+        else { BINSON_PARSER_DEF(p); (void) binson_parser_init(&p, c, sizeof other); scratch.deserialize(&p); }
+    } catch (...) { }
+    memset(c, 0xDD, sizeof other);
+    free(c);
+}
 static int call_overload(int ov, const uint8_t *b, size_t n, Binson &out)
 {
     OVERLOAD = ov;
+    prior_use(ov);
     vf_progress++;
     vf_count(CT_CALLS, 1);
     try {
